@@ -21,6 +21,7 @@ type Writer struct {
 	FailCall  int  // 1-based index of the failing call; 0 = none
 	Sticky    bool // all calls >= FailCall fail
 	Partial   bool // the failing call accepts half of its bytes
+	FullCount bool // the failing call accepts all of its bytes and still returns an error
 	Capacity  int  // total bytes accepted before (n<len, err) for ever; -1 = unlimited
 	FailEmpty bool // zero-length writes fail too once the fault is active
 	// record
@@ -51,6 +52,9 @@ func (w *Writer) Write(p []byte) (int, error) {
 		if w.Partial && w.Calls == w.FailCall {
 			n = len(p) / 2
 		}
+		if w.FullCount && w.Calls == w.FailCall {
+			n = len(p)
+		}
 		w.Accepted = append(w.Accepted, p[:n]...)
 		w.fail()
 		return n, ErrInjected
@@ -77,11 +81,21 @@ type Reader struct {
 	FailAt   int  // byte offset at which an error is returned; -1 = never
 	WithData bool // the failing call also returns the bytes before FailAt
 	EOFAt    int  // early EOF at this offset; -1 = none
+	StallAt  int  // from this offset on every Read returns (0, nil); 0 = never
 	pos      int
 	Fired    bool
+	Stalls   int
 }
 
 func (r *Reader) Read(p []byte) (int, error) {
+	if r.StallAt > 0 && r.pos >= r.StallAt-1 {
+		r.Fired = true
+		r.Stalls++
+		if r.Stalls > 1000 {
+			return 0, ErrInjected // a reader that makes no progress for ever would hang any caller; give up eventually
+		}
+		return 0, nil
+	}
 	if r.EOFAt >= 0 && r.pos >= r.EOFAt {
 		r.Fired = true
 		return 0, io.EOF
@@ -103,6 +117,9 @@ func (r *Reader) Read(p []byte) (int, error) {
 	limit := -1
 	if r.FailAt >= 0 {
 		limit = r.FailAt
+	}
+	if r.StallAt > 0 && (limit < 0 || r.StallAt-1 < limit) {
+		limit = r.StallAt - 1
 	}
 	if r.EOFAt >= 0 && (limit < 0 || r.EOFAt < limit) {
 		limit = r.EOFAt
